@@ -78,6 +78,24 @@ thread_local! {
 static GLOBAL_PANICS: Mutex<Vec<PanicInfo>> = Mutex::new(Vec::new());
 /// When set, panics on any thread are recorded in GLOBAL_PANICS (multi-thread runtime cases).
 static GLOBAL_CAPTURE: AtomicBool = AtomicBool::new(false);
+/// Panics on threads named "vh-mt-<n>-…" (worker threads of a case's own multi-thread runtime) are always
+/// recorded in GLOBAL_PANICS; each case takes its own by that name, so concurrent shards do not mix them up.
+static MT_SERIAL: std::sync::atomic::AtomicU64 = std::sync::atomic::AtomicU64::new(1);
+
+/// A fresh multi-thread runtime whose worker threads carry a unique name; returns the runtime and the name prefix.
+pub fn mt_runtime(workers: usize) -> (tokio::runtime::Runtime, String) {
+    let name = format!("vh-mt-{}-", MT_SERIAL.fetch_add(1, Ordering::SeqCst));
+    let rt = tokio::runtime::Builder::new_multi_thread().worker_threads(workers).thread_name(name.clone()).enable_time().build().expect("runtime");
+    (rt, name)
+}
+
+/// Panics recorded on the worker threads of the runtime with this name prefix.
+pub fn take_mt_panics(prefix: &str) -> Vec<PanicInfo> {
+    let mut g = GLOBAL_PANICS.lock().unwrap();
+    let (mine, rest): (Vec<PanicInfo>, Vec<PanicInfo>) = g.drain(..).partition(|p| p.thread.starts_with(prefix));
+    *g = rest;
+    mine
+}
 
 pub fn install_panic_hook() {
     panic::set_hook(Box::new(|info| {
@@ -98,7 +116,7 @@ pub fn install_panic_hook() {
             message,
             thread: std::thread::current().name().unwrap_or("?").to_string(),
         };
-        if GLOBAL_CAPTURE.load(Ordering::SeqCst) {
+        if GLOBAL_CAPTURE.load(Ordering::SeqCst) || p.thread.starts_with("vh-mt-") {
             GLOBAL_PANICS.lock().unwrap().push(p.clone());
         }
         LOCAL_PANICS.with(|l| l.borrow_mut().push(p));
